@@ -530,3 +530,29 @@ pub fn tracked_confirmed<R>(body: impl Fn() -> R) -> (R, crate::alloc::Report) {
     drop(r);
     tracked(&body)
 }
+
+
+/// Turn a fuzzer's byte string into a value of `strat`: proptest's pass-through RNG consumes the
+/// bytes as its random stream, so coverage-guided mutation of the bytes explores the strategy.
+pub fn value_from_bytes<S: Strategy>(strat: &S, data: &[u8]) -> Option<S::Value> {
+    use proptest::strategy::ValueTree;
+    use proptest::test_runner::TestRng;
+    let mut cfg = Config::default();
+    cfg.failure_persistence = None;
+    // The pass-through RNG yields zeros once the bytes are used up, on which rand's rejection
+    // sampling for non-power-of-two ranges never terminates: continue the stream with a
+    // pseudo-random tail derived from the input, so that the stream is never exhausted.
+    let mut buf = Vec::with_capacity(data.len() + (1 << 16));
+    buf.extend_from_slice(data);
+    let mut x = crate::Fnv::new().bytes(data).get() | 1;
+    while buf.len() < data.len() + (1 << 16) {
+        x = x.wrapping_add(0x9E3779B97F4A7C15);
+        let mut z = x;
+        z = (z ^ (z >> 30)).wrapping_mul(0xBF58476D1CE4E5B9);
+        z = (z ^ (z >> 27)).wrapping_mul(0x94D049BB133111EB);
+        buf.extend_from_slice(&(z ^ (z >> 31)).to_le_bytes());
+    }
+    let rng = TestRng::from_seed(RngAlgorithm::PassThrough, &buf);
+    let mut runner = TestRunner::new_with_rng(cfg, rng);
+    strat.new_tree(&mut runner).ok().map(|t| t.current())
+}
